@@ -14,7 +14,7 @@ from gen import model as M, values as V, refcodec as R
 from streamworld import sw, pynode as P, cppnode as C, runner
 
 PROP = "C15"
-EDITS = ["field_type", "field_order", "enum_base", "vector_length", "union_order", "field_name", "make_optional", "enum_value", "map_key",
+EDITS = ["field_type", "field_order", "enum_base", "vector_length", "union_order", "field_name", "make_optional", "enum_value", "enum_to_flags", "map_key",
          "imported_shadowed_type", "imported_type", "generic_argument"]
 
 
@@ -70,6 +70,8 @@ def near_identical(pkg, edit):
         en.base = "int16"
     elif edit == "enum_value":
         en.values = [("qa", 0), ("qb", 2)]
+    elif edit == "enum_to_flags":
+        en.flags = True                      # same symbols, same values, same base: a set of them instead of one of them
     elif edit == "vector_length":
         rec.fields = [(n, M.Vec(M.Prim("uint16"), 3) if n == "epsilon" else t) for n, t in rec.fields]
     elif edit == "union_order":
@@ -327,8 +329,9 @@ def run_twin(task, rng, pkg_b, edit, a_streams, want_cpp, ybin, root, quick, sta
                 # that is exactly "decoding a foreign stream as if it were its own"
                 if a_streams[proto.name][2] == schema:
                     stats["near_identical_models_with_identical_schema_text"] = stats.get("near_identical_models_with_identical_schema_text", 0) + 1
-                jobs.append(("stream of the near-identical protocol (%s) delivered" % edit, "misdelivery_near_identical", "binary", a_streams[proto.name][0]))
-                jobs.append(("NDJSON stream of the near-identical protocol (%s) delivered" % edit, "misdelivery_near_identical", "ndjson", a_streams[proto.name][1]))
+                mcls = "misdelivery_enum_vs_flags" if edit == "enum_to_flags" else "misdelivery_near_identical"
+                jobs.append(("stream of the near-identical protocol (%s) delivered" % edit, mcls, "binary", a_streams[proto.name][0]))
+                jobs.append(("NDJSON stream of the near-identical protocol (%s) delivered" % edit, mcls, "ndjson", a_streams[proto.name][1]))
             for other in ([] if only_misdelivery else protos):
                 if other.name != proto.name:
                     sib = other.name == proto.name + SIBLING or proto.name == other.name + SIBLING
@@ -353,7 +356,8 @@ def run_twin(task, rng, pkg_b, edit, a_streams, want_cpp, ybin, root, quick, sta
                     continue
                 jobs.append(("flip bit %d of NDJSON header byte %d" % (bit, pos), "flip_ndjson_header", "ndjson", bytes(m)))
             if not only_misdelivery:
-                jobs.append(("NDJSON header with version 2", "ndjson_version", "ndjson", raw.replace(b'"version":1', b'"version":2', 1)))
+                for ver_ in (b"2", b"0", b"1.5", b"1.999", b"4294967297", b"-4294967295", b"true", b'"1"', b"null", b"[1]"):
+                    jobs.append(("NDJSON header with version %s" % ver_.decode(), "ndjson_version", "ndjson", raw.replace(b'"version":1', b'"version":' + ver_, 1)))
                 body = raw[nl:]
                 hj = json.loads(raw[:nl].decode("utf-8"))
                 variants = [("NDJSON header without the version", {"yardl": {"schema": hj["yardl"]["schema"]}}),
@@ -648,7 +652,7 @@ def main():
                stubbed="C++ nd-array header and date/date.h",
                assumptions=["a corruption after which the header is still the reader's own header by the documented format (NDJSON line parsing to the same JSON) is benign and skipped"],
                replay_fn=replay_doc, quick_budget=140,
-               fault_keys=("misdelivery_near_identical", "misdelivery_unrelated", "misdelivery_sibling_protocol", "flip_magic", "flip_version", "flip_schema_length", "subst_magic", "subst_version",
+               fault_keys=("misdelivery_near_identical", "misdelivery_enum_vs_flags", "misdelivery_unrelated", "misdelivery_sibling_protocol", "flip_magic", "flip_version", "flip_schema_length", "subst_magic", "subst_version",
                            "subst_schema_length", "flip_schema_text", "watch_sessions", "schema_prefix", "degenerate_schema", "cpp_degenerate_schema", "schema_extended", "schema_token_replaced", "flip_ndjson_header", "ndjson_version", "ndjson_header_structure",
                            "cpp_misdelivery_near_previous_version", "cpp_flip_previous_schema_text", "python_previous_version"))
 
